@@ -99,6 +99,9 @@ class UnitText:
             return cps.min()
         w = self.width
         sets = [doms.get(('d', i)) for i in range(w)]
+        for nice in (0xE9, 0x1F600, 0x4E2D):
+            if nice in cps and all(sets[i] is None or ord(format(nice, f'0{w}{"X" if self.upper else "x"}')[i]) in sets[i] for i in range(w)):
+                return nice
 
         def rec(i: int, val: int) -> Optional[int]:
             if i == w:
@@ -249,6 +252,8 @@ def show_atom(a: tuple) -> str:
         return '<a following character>'
     if a[0] == 'chr':
         return 'chr(int(' + '+'.join(show_atom(d) for d in a[1]) + ', 16))'
+    if a[0] == 'num':
+        return f'<the code point in hex, at least {a[1]} digit(s)>'
     return f'<{a[1]}>'
 
 
@@ -411,6 +416,11 @@ class SStr:
         return len(self.atoms)
 
 
+class SOrd:
+    """ord(<the character>): the code point as a number."""
+    __slots__ = ()
+
+
 class SInt:
     """int(<digits>, 16) of symbolic hex digits."""
     __slots__ = ('digits',)
@@ -489,6 +499,24 @@ class TemplateRepl:
         return out
 
 
+def _unit_atoms(parts: Sequence[tuple], cp: Optional[int]) -> List[tuple]:
+    """Unit-table parts as atoms (for a known code point the numeral is spelled out)."""
+    out: List[tuple] = []
+    for p in parts:
+        if p[0] == 'lit':
+            out += [('c', ch) for ch in p[1]]
+        elif p[0] == 'self':
+            out.append(CP if cp is None else ('c', chr(cp)))
+        elif p[0] == 'hex':
+            if cp is None:
+                out.append(('num', p[1], bool(p[2])))
+            else:
+                out += [('c', ch) for ch in format(cp, f'0{p[1]}{"X" if p[2] else "x"}')]
+        else:
+            raise AnalysisError(f'unit part {p[0]} not modelled')
+    return out
+
+
 class _Return(Exception):
     def __init__(self, value: Any):
         super().__init__('return')
@@ -507,6 +535,9 @@ class PyCallback:
         self.param = params[0]
         self.subj: Optional[Subject] = None
         self.steps = 0
+        self.depth = 0
+        self.codec_units: Optional[Sequence[Tuple[int, int, Sequence[tuple]]]] = None   # unit table of str.encode('unicode_escape') (platform), set by the caller
+        self.consts: Dict[str, Any] = {}   # known values of parameters of the enclosing function (a mode flag)
 
     def fail(self, e: ast.AST, what: str = 'construct') -> Any:
         raise AnalysisError(f'{self.where}: {what} `{pf.nsrc(e)[:70]}` of the replacement function is not in the table of modelled operations')
@@ -529,6 +560,23 @@ class PyCallback:
         if isinstance(v, (str, SStr)):
             return list(SStr.of(v).atoms)
         raise PyRaise('TypeError', f'the replacement function returns a {type(v).__name__}')
+
+    def apply_to(self, value: Any, subj: Subject) -> List[tuple]:
+        """The function applied to an arbitrary (symbolic) argument instead of a match object."""
+        self.subj = subj
+        self.steps = 0
+        env: Dict[str, Any] = {self.param: value}
+        if isinstance(self.node, ast.Lambda):
+            v = self.ev(self.node.body, env)
+        else:
+            try:
+                self.run(self.node.body, env)  # type: ignore[attr-defined]
+                v = None
+            except _Return as r:
+                v = r.value
+        if isinstance(v, (str, SStr)):
+            return list(SStr.of(v).atoms)
+        raise PyRaise('TypeError', 'the function does not return a string')
 
     # ---- statements
     def run(self, stmts: Sequence[ast.stmt], env: Dict[str, Any]) -> None:
@@ -588,22 +636,198 @@ class PyCallback:
 
     def lookup(self, name: str, e: ast.AST) -> Any:
         # enclosing function locals (single assignment), then module constants, then builtins
+        if self.outer is not None and name in self.consts:
+            return self.consts[name]
+        if self.outer is not None and _nested_def(self.outer, name) is not None:
+            return ('func', _nested_def(self.outer, name))
         if self.outer is not None and name in pf.assignments(self.outer):
             d = pf.single_def(self.outer, name)
             if d is None or not isinstance(d, ast.expr):
                 self.fail(e, f'closure variable {name} (not a single assignment) in')
             return self.static_value(d, e)  # type: ignore[arg-type]
-        if name in ('chr', 'int', 'len', 'str', 'ord', 'bool'):
+        if name in ('chr', 'int', 'len', 'str', 'ord', 'bool', 'hex', 'format', 'bytes'):
             if sp.module_bindings(self.m, name):
                 self.fail(e, f'rebound builtin {name} in')
             return ('builtin', name)
         if name in sp.imports_of(self.m):
             return ('import', sp.imports_of(self.m)[name])
+        b = sp.module_bindings(self.m, name)
+        if len(b) == 1 and isinstance(b[0], ast.FunctionDef):
+            return ('func', b[0])
         try:
             d2 = sp.module_const(self.m, name)
         except AnalysisError:
             self.fail(e, f'name {name} in')
         return self.static_value(d2, e)
+
+    def call_user(self, fd: ast.FunctionDef, args: List[Any], kw: Dict[str, Any], e: ast.AST) -> Any:
+        """A module-level helper function, evaluated abstractly with its arguments bound (no decorators, no *args)."""
+        a = fd.args
+        if fd.decorator_list or a.vararg or a.kwarg or a.kwonlyargs or self.depth >= 3:
+            self.fail(e, f'call of the helper {fd.name} in')
+        params = [x.arg for x in a.posonlyargs + a.args]
+        if len(args) > len(params) or not set(kw) <= set(params[len(args):]):
+            self.fail(e, f'arguments of the helper {fd.name} in')
+        env: Dict[str, Any] = dict(zip(params, args))
+        env.update(kw)
+        defaults = dict(zip(params[len(params) - len(a.defaults):], a.defaults))
+        for p_ in params:
+            if p_ not in env:
+                if p_ not in defaults:
+                    self.fail(e, f'arguments of the helper {fd.name} in')
+                env[p_] = self.static_value(defaults[p_], e)
+        self.depth += 1
+        outer = self.outer
+        self.outer = None
+        try:
+            try:
+                self.run(fd.body, env)
+                return None
+            except _Return as r:
+                return r.value
+        finally:
+            self.depth -= 1
+            self.outer = outer
+
+    # ---- numbers of the character
+    def ord_cmp(self, op: ast.cmpop, left: Any, right: Any, e: ast.AST) -> bool:
+        flip = {ast.Lt: ast.Gt, ast.LtE: ast.GtE, ast.Gt: ast.Lt, ast.GtE: ast.LtE, ast.Eq: ast.Eq, ast.NotEq: ast.NotEq}
+        t = type(op)
+        if t not in flip:
+            self.fail(e, 'comparison')
+        if isinstance(right, SOrd):
+            left, right, t = right, left, flip[t]
+        if isinstance(right, SOrd):
+            return t in (ast.Eq, ast.LtE, ast.GtE)
+        if not isinstance(right, int) or isinstance(right, bool):
+            self.fail(e, 'comparison of the code point with a non-integer in')
+        n = right
+
+        def rng(a: int, b: int) -> R.CharSet:
+            a, b = max(a, 0), min(b, R.MAXCP)
+            return R.CharSet([(a, b)]) if a <= b else R.CharSet.empty()
+        X = {ast.Lt: rng(0, n - 1), ast.LtE: rng(0, n), ast.Gt: rng(n + 1, R.MAXCP), ast.GtE: rng(n, R.MAXCP), ast.Eq: rng(n, n), ast.NotEq: ~rng(n, n)}[t]
+        assert self.subj is not None
+        return self.subj.test_atom(CP, X)
+
+    def fmt_num(self, v: Any, spec: str, e: ast.AST) -> Any:
+        """format(v, spec) for the code point / an integer and a hexadecimal spec ([0][width](x|X)); strings with an empty spec."""
+        if isinstance(v, (str, SStr)):
+            if spec not in ('', 's'):
+                self.fail(e, f'format spec {spec!r} for a string in')
+            return SStr.of(v)
+        import re as _re
+        mm = _re.fullmatch(r'(0?)(\d*)([xXd]?)', spec)
+        if mm is None or (mm.group(2) and not mm.group(1)):
+            self.fail(e, f'format spec {spec!r} in')
+        zero, width, typ = mm.groups()  # type: ignore[union-attr]
+        w = int(width) if width else 1
+        if isinstance(v, SOrd):
+            if typ not in ('x', 'X'):
+                self.fail(e, f'format spec {spec!r} (the code point in decimal) in')
+            return SStr([('num', max(w, 1), typ == 'X')])
+        if isinstance(v, int) and not isinstance(v, bool):
+            return SStr.of(format(v, spec))
+        self.fail(e, 'formatted value')
+
+    def format_call(self, fmt: str, args: List[Any], kw: Dict[str, Any], e: ast.AST) -> Any:
+        import string
+        out: List[tuple] = []
+        auto = 0
+        try:
+            fields = list(string.Formatter().parse(fmt))
+        except ValueError:
+            self.fail(e, 'format string')
+
+        def field_value(name: str) -> Any:
+            nonlocal auto
+            if name == '':
+                i = auto
+                auto += 1
+            elif name.isdigit():
+                i = int(name)
+            elif name in kw:
+                return kw[name]
+            else:
+                self.fail(e, f'format field {name!r} in')
+            if i >= len(args):
+                raise PyRaise('IndexError', 'format index out of range')
+            return args[i]
+        for lit_, name, spec, conv in fields:
+            out += list(SStr.of(lit_).atoms)
+            if name is None:
+                continue
+            if conv not in (None, 's'):
+                self.fail(e, 'format conversion in')
+            v = field_value(name)
+            spec = spec or ''
+            if '{' in spec:
+                # nested fields in the spec: integers only
+                parts = []
+                for l2, n2, s2, c2 in string.Formatter().parse(spec):
+                    parts.append(l2)
+                    if n2 is not None:
+                        if s2 or c2:
+                            self.fail(e, 'nested format spec in')
+                        v2 = field_value(n2)
+                        if v2 is None or not isinstance(v2, int) or isinstance(v2, bool):
+                            self.fail(e, 'nested format field (not an integer) in')
+                        parts.append(str(v2))
+                spec = ''.join(parts)
+            out += list(self.fmt_num(v, spec, e).atoms)
+        return SStr(out)
+
+    def percent_format(self, fmt: str, arg: Any, e: ast.AST) -> Any:
+        import re as _re
+        args = list(arg) if isinstance(arg, tuple) else [arg]
+        out: List[tuple] = []
+        pos = 0
+        for mm in _re.finditer(r'%(0?)(\d*)([xXds%])', fmt):
+            out += list(SStr.of(fmt[pos:mm.start()]).atoms)
+            pos = mm.end()
+            if mm.group(3) == '%':
+                out.append(('c', '%'))
+                continue
+            if not args:
+                raise PyRaise('TypeError', 'not enough arguments for format string')
+            v = args.pop(0)
+            if mm.group(3) == 's':
+                if mm.group(1) or mm.group(2):
+                    self.fail(e, '%-format with a width for a string in')
+                out += list(self.fmt_num(v, '', e).atoms)
+            else:
+                out += list(self.fmt_num(v, mm.group(1) + mm.group(2) + mm.group(3), e).atoms)
+        rest = fmt[pos:]
+        if '%' in rest or args:
+            self.fail(e, '%-format')
+        out += list(SStr.of(rest).atoms)
+        return SStr(out)
+
+    def codec_encode(self, s: 'SStr', e: ast.AST) -> Any:
+        """s.encode('unicode_escape') read as text, for a string made of constants and the character itself (platform table)."""
+        if self.codec_units is None:
+            self.fail(e, 'unicode_escape encoding (no platform table) in')
+        assert self.subj is not None
+        out: List[tuple] = []
+        for a in s.atoms:
+            cps = [a] if a == CP else None
+            if a[0] == 'c':
+                hit = [u for u in self.codec_units if u[0] <= ord(a[1]) <= u[1]]  # type: ignore[union-attr]
+                if len(hit) != 1:
+                    self.fail(e, 'unicode_escape table lookup in')
+                out += _unit_atoms(hit[0][2], ord(a[1]))
+                continue
+            if cps is None:
+                self.fail(e, 'unicode_escape encoding of a derived character in')
+            done = False
+            for lo, hi, parts in self.codec_units:  # type: ignore[union-attr]
+                if self.subj.test_atom(CP, R.CharSet([(lo, hi)])):
+                    out += _unit_atoms(parts, None)
+                    done = True
+                    break
+            if not done:
+                self.fail(e, 'unicode_escape table lookup in')
+        return SStr(out)
 
     def static_value(self, d: ast.expr, e: ast.AST) -> Any:
         """A constant table / string / tuple defined outside the replacement function."""
@@ -758,6 +982,10 @@ class PyCallback:
                     if not isinstance(x, (str, SStr)):
                         self.fail(e, 'formatted value')
                     out += list(SStr.of(x).atoms)
+                elif isinstance(v, ast.FormattedValue) and v.conversion == -1 and isinstance(v.format_spec, ast.JoinedStr) \
+                        and all(isinstance(q, ast.Constant) for q in v.format_spec.values):
+                    spec = ''.join(str(q.value) for q in v.format_spec.values)  # type: ignore[attr-defined]
+                    out += list(self.fmt_num(self.ev(v.value, env), spec, e).atoms)
                 else:
                     self.fail(e, 'formatted value')
             return SStr(out)
@@ -768,12 +996,19 @@ class PyCallback:
             if isinstance(a, int) and isinstance(b, int):
                 return a + b
             self.fail(e, 'addition')
+        if isinstance(e, ast.BinOp) and isinstance(e.op, ast.Mod):
+            a = self.ev(e.left, env)
+            if isinstance(a, str):
+                return self.percent_format(a, self.ev(e.right, env), e)
+            self.fail(e, '%-format')
         if isinstance(e, ast.Compare):
             left = self.ev(e.left, env)
             res = True
             for op, rhs_e in zip(e.ops, e.comparators):
                 right = self.ev(rhs_e, env)
-                if isinstance(op, (ast.Eq, ast.NotEq)):
+                if isinstance(left, SOrd) or isinstance(right, SOrd):
+                    r = self.ord_cmp(op, left, right, e)
+                elif isinstance(op, (ast.Eq, ast.NotEq)):
                     r = self.str_eq(left, right, e)
                     r = r if isinstance(op, ast.Eq) else not r
                 elif isinstance(op, (ast.Is, ast.IsNot)):
@@ -810,10 +1045,16 @@ class PyCallback:
                     stp = None if e.slice.step is None else self.ev(e.slice.step, env)
                     if not all(x is None or (isinstance(x, int) and not isinstance(x, bool)) for x in (lo, hi, stp)):
                         self.fail(e, 'slice bounds of')
+                    if any(a[0] == 'num' for a in s.atoms):
+                        # a numeral of unknown length: only `[k:]` over a constant prefix of k characters
+                        if hi is not None or stp is not None or lo is None or lo < 0 or any(a[0] == 'num' for a in s.atoms[:lo]):
+                            self.fail(e, 'slice of a string that contains a numeral of unknown length in')
                     return SStr(s.atoms[slice(lo, hi, stp)])
                 i = self.ev(e.slice, env)
                 if not isinstance(i, int) or isinstance(i, bool):
                     self.fail(e, 'index of')
+                if any(a[0] == 'num' for a in s.atoms):
+                    self.fail(e, 'index into a string that contains a numeral of unknown length in')
                 if not -len(s) <= i < len(s):
                     raise PyRaise('IndexError', 'string index out of range')
                 return SStr([s.atoms[i]])
@@ -881,6 +1122,8 @@ class PyCallback:
                             out.append(('c', getattr(a[1], f.attr)()))
                             if len(out[-1][1]) != 1:
                                 self.fail(e, 'case mapping')
+                        elif a[0] == 'num':
+                            out.append(('num', a[1], f.attr == 'upper'))
                         elif self.subj.test_atom(a, fixed):
                             out.append(a)
                         else:
@@ -891,12 +1134,47 @@ class PyCallback:
                     if not isinstance(enc, str):
                         self.fail(e, 'encoding')
                     return ('bytes', s, enc)
-                if f.attr in ('isdigit', 'isalpha', 'isalnum') and not args and not kw:
+                if f.attr in ('isdigit', 'isalpha', 'isalnum', 'isdecimal', 'isnumeric', 'isspace') and not args and not kw and not any(a[0] == 'num' for a in s.atoms):
                     assert self.subj is not None
                     return len(s) > 0 and all(self.subj.test_atom(a, R.pred('str.' + f.attr)) for a in s.atoms)
+                if f.attr in ('isascii', 'isprintable') and not args and not kw and not any(a[0] == 'num' for a in s.atoms):
+                    assert self.subj is not None
+                    return all(self.subj.test_atom(a, R.pred('str.' + f.attr)) for a in s.atoms)
+                if f.attr in ('islower', 'isupper', 'isidentifier') and not args and not kw and len(s) == 1 and s.atoms[0][0] != 'num':
+                    assert self.subj is not None
+                    return self.subj.test_atom(s.atoms[0], R.pred('str.' + f.attr))
+                if f.attr == 'format' and isinstance(recv, str):
+                    return self.format_call(recv, args, {k: self.ev(v, env) for k, v in kw.items()}, e)
+                if f.attr == 'replace' and len(args) == 2 and not kw and isinstance(args[0], str) and isinstance(args[1], (str, SStr)):
+                    a0 = args[0]
+                    if len(a0) != 1:
+                        c0 = s.const()
+                        if c0 is None or not isinstance(args[1], str):
+                            self.fail(e, '.replace of a multi-character pattern on a symbolic string in')
+                        return c0.replace(a0, args[1])
+                    assert self.subj is not None
+                    out2: List[tuple] = []
+                    for a in s.atoms:
+                        if a[0] == 'num':
+                            if a0 in '0123456789abcdefABCDEF':
+                                self.fail(e, '.replace of a hex digit in')
+                            out2.append(a)
+                        elif self.subj.test_atom(a, R.CharSet.of(a0)):
+                            out2 += list(SStr.of(args[1]).atoms)
+                        else:
+                            out2.append(a)
+                    return SStr(out2)
+                if f.attr in ('zfill', 'rjust') and not kw and len(s) == 1 and s.atoms[0][0] == 'num' and args and isinstance(args[0], int) \
+                        and (f.attr == 'zfill' and len(args) == 1 or f.attr == 'rjust' and len(args) == 2 and args[1] == '0'):
+                    return SStr([('num', max(s.atoms[0][1], args[0]), s.atoms[0][2])])
                 self.fail(e, 'string method')
-            if isinstance(recv, tuple) and len(recv) == 3 and recv[0] == 'bytes' and f.attr == 'decode' and len(args) == 1 and not kw and isinstance(args[0], str):
-                return self.codec_decode(recv[1], recv[2], args[0], e)
+            if isinstance(recv, tuple) and len(recv) == 3 and recv[0] == 'bytes' and f.attr == 'decode' and len(args) <= 1 and not kw and all(isinstance(x, str) for x in args):
+                enc0, dec0 = _norm_codec(recv[2]), _norm_codec(args[0] if args else 'utf-8')
+                if enc0 == 'unicodeescape' and dec0 in ('utf8', 'ascii', 'latin1'):
+                    return self.codec_encode(recv[1], e)
+                if enc0 == dec0 == 'utf8':
+                    return recv[1]
+                return self.codec_decode(recv[1], recv[2], args[0] if args else 'utf-8', e)
             self.fail(e, 'method call')
         if isinstance(f, ast.Name):
             fn = env.get(f.id) if f.id in env else self.lookup(f.id, e)
@@ -909,7 +1187,24 @@ class PyCallback:
                     self.fail(e, 'base of')
                 return self.to_int(args[0], base, e)
             if fn == ('builtin', 'len') and len(args) == 1 and not kw and isinstance(args[0], (str, SStr, tuple, dict)):
+                if isinstance(args[0], SStr) and any(a[0] == 'num' for a in args[0].atoms):
+                    self.fail(e, 'length of a string that contains a numeral of unknown length in')
                 return len(args[0])
+            if fn == ('builtin', 'ord') and len(args) == 1 and not kw and isinstance(args[0], (str, SStr)):
+                s1 = SStr.of(args[0])
+                if len(s1) != 1:
+                    raise PyRaise('TypeError', 'ord() expected a character')
+                if s1.atoms[0] == CP:
+                    return SOrd()
+                if s1.atoms[0][0] == 'c':
+                    return ord(s1.atoms[0][1])
+                self.fail(e, 'ord() of a derived character in')
+            if fn == ('builtin', 'hex') and len(args) == 1 and not kw and isinstance(args[0], SOrd):
+                return SStr([('c', '0'), ('c', 'x'), ('num', 1, False)])
+            if fn == ('builtin', 'format') and len(args) == 2 and not kw and isinstance(args[1], str):
+                return self.fmt_num(args[0], args[1], e)
+            if isinstance(fn, tuple) and len(fn) == 2 and fn[0] == 'func':
+                return self.call_user(fn[1], args, {k: self.ev(v, env) for k, v in kw.items()}, e)
             if fn == ('builtin', 'str') and len(args) == 1 and not kw and isinstance(args[0], (str, SStr)):
                 return args[0]
             if fn == ('builtin', 'bool') and len(args) == 1 and not kw:
@@ -1220,6 +1515,160 @@ def decoder_stages(m: pf.Module, fn: pf.FuncDef, early: Optional[List[ast.If]] =
         else:
             raise AnalysisError(f'{where}: unrecognised body (step {op[:2]} is not modelled at this place)')
     return stages, summary
+
+
+# ---------------------------------------------------------------------------------------------------------------------
+# per-character encoders
+# ---------------------------------------------------------------------------------------------------------------------
+
+
+def _static_translate_table(m: pf.Module, fn: pf.FuncDef, e: ast.AST, where: str) -> Dict[int, Optional[str]]:
+    """A str.translate table given as a literal: str.maketrans({...}) / {ord('c'): '..', 0x5c: '..'} / str.maketrans('ab', 'xy')."""
+    cur = e
+    for _ in range(3):
+        if isinstance(cur, ast.Name):
+            if cur.id in pf.assignments(fn):
+                d = pf.single_def(fn, cur.id)
+                if d is None or not isinstance(d, ast.expr):
+                    raise AnalysisError(f'{where}: translate table `{cur.id}` is not a single assignment')
+                cur = d
+            else:
+                cur = sp.module_const(m, cur.id)
+        else:
+            break
+    if isinstance(cur, ast.Call) and pf.dotted(cur.func) == 'str.maketrans' and not cur.keywords:
+        if len(cur.args) == 1:
+            cur = cur.args[0]
+        elif len(cur.args) in (2, 3) and all(isinstance(a, ast.Constant) and isinstance(a.value, str) for a in cur.args):
+            a0, a1 = cur.args[0].value, cur.args[1].value  # type: ignore[attr-defined]
+            if len(a0) != len(a1):
+                raise AnalysisError(f'{where}: str.maketrans arguments of different length')
+            tab: Dict[int, Optional[str]] = {ord(x): y for x, y in zip(a0, a1)}
+            if len(cur.args) == 3:
+                for x in cur.args[2].value:  # type: ignore[attr-defined]
+                    tab[ord(x)] = None
+            return tab
+    if not isinstance(cur, ast.Dict):
+        raise AnalysisError(f'{where}: translate table `{pf.nsrc(e)[:50]}` is not a literal')
+    out: Dict[int, Optional[str]] = {}
+    for k, v in zip(cur.keys, cur.values):
+        if isinstance(k, ast.Constant) and isinstance(k.value, str) and len(k.value) == 1:
+            key = ord(k.value)
+        elif isinstance(k, ast.Constant) and isinstance(k.value, int) and not isinstance(k.value, bool):
+            key = k.value
+        elif isinstance(k, ast.Call) and pf.dotted(k.func) == 'ord' and len(k.args) == 1 and isinstance(k.args[0], ast.Constant) and isinstance(k.args[0].value, str) \
+                and len(k.args[0].value) == 1:
+            key = ord(k.args[0].value)
+        else:
+            raise AnalysisError(f'{where}: translate table key `{pf.nsrc(k)[:30] if k is not None else "**"}` not recognised')
+        if isinstance(v, ast.Constant) and (v.value is None or isinstance(v.value, str)):
+            out[key] = v.value
+        elif isinstance(v, ast.Constant) and isinstance(v.value, int) and not isinstance(v.value, bool):
+            out[key] = chr(v.value)
+        else:
+            raise AnalysisError(f'{where}: translate table value `{pf.nsrc(v)[:30]}` not recognised')
+    return out
+
+
+def char_encoder(m: pf.Module, fn: pf.FuncDef, core: ast.AST, param: str,
+                 codec_units: Sequence[Tuple[int, int, Sequence[tuple]]], consts: Optional[Dict[str, Any]] = None) -> List[Tuple[R.CharSet, List[tuple]]]:
+    """A hand-written per-character encoder over the parameter, as [(set of characters, unit-table parts emitted for each of them)]:
+         P.sub(F, s) / re.sub(pattern, F, s)      every match must be ONE character and must not depend on its neighbours
+         ''.join(<expr over c> for c in s)         (also a list comprehension)
+         s.translate(<literal table>)
+    decided by abstract evaluation on the symbolic character (case splits on its set); anything context dependent -> AnalysisError.
+    `consts`: values of other parameters of fn (e.g. a mode flag) under which the table is wanted."""
+    where = f'{m.rel}::{fn.name}'
+    full = R.CharSet([(0, R.MAXCP)])
+    unit = UnitText(0, R.MAXCP, [('self',)], 'any character')
+    conts = {0: (full, full)}
+    mods, funcs = sp._re_module_names(m)
+    evaluate = None
+    if isinstance(core, ast.Call):
+        f = core.func
+        d = pf.dotted(f)
+        kw = {k.arg: k.value for k in core.keywords}
+        stage = None
+        if (isinstance(f, ast.Attribute) and isinstance(f.value, ast.Name) and f.value.id in mods and f.attr == 'sub' and len(core.args) == 3 and set(kw) <= {'flags'}):
+            if isinstance(core.args[2], ast.Name) and core.args[2].id == param:
+                try:
+                    rd = sp.resolve_regex(m, fn, core.args[0])
+                    pattern, flags = rd.pattern, rd.flags
+                except AnalysisError:
+                    pattern, flags = sp.const_string(m, fn, core.args[0]), sp.flags_value(m, kw.get('flags'))
+                stage = SubStage(Matcher(pattern, flags, where), _callback(m, fn, core.args[1], where), f'`{pf.nsrc(core)[:80]}`')
+        elif isinstance(f, ast.Attribute) and f.attr == 'sub' and len(core.args) == 2 and not kw and isinstance(core.args[1], ast.Name) and core.args[1].id == param:
+            rd = sp.resolve_regex(m, fn, f.value)
+            stage = SubStage(Matcher(rd.pattern, rd.flags, where), _callback(m, fn, core.args[0], where), f'`{pf.nsrc(core)[:80]}`')
+        if stage is not None:
+            if isinstance(stage.repl, PyCallback):
+                stage.repl.codec_units = codec_units
+                stage.repl.consts = dict(consts or {})
+
+            def evaluate(subj: Subject) -> List[tuple]:  # noqa: F811
+                end, out = stage.scan(subj)
+                if end != 1:
+                    raise AnalysisError(f'{where}: a match of {stage.desc} spans more than one character; the encoder is not per-character')
+                return out
+        elif isinstance(f, ast.Attribute) and f.attr == 'join' and len(core.args) == 1 and not kw and pf.const_str(f.value) == '' \
+                and isinstance(core.args[0], (ast.GeneratorExp, ast.ListComp)) and len(core.args[0].generators) == 1:
+            gen = core.args[0].generators[0]
+            if gen.ifs or gen.is_async or not isinstance(gen.target, ast.Name) or not (isinstance(gen.iter, ast.Name) and gen.iter.id == param):
+                raise AnalysisError(f'{where}: `{pf.nsrc(core)[:70]}`: generator shape not recognised (filters / other iterables are not modelled)')
+            lam = ast.Lambda(args=ast.arguments(posonlyargs=[], args=[ast.arg(arg=gen.target.id)], kwonlyargs=[], kw_defaults=[], defaults=[]), body=core.args[0].elt)
+            ast.copy_location(lam, core)
+            ast.fix_missing_locations(lam)
+            cb = PyCallback(m, fn, lam, where)
+            cb.codec_units = codec_units
+            cb.consts = dict(consts or {})
+
+            def evaluate(subj: Subject) -> List[tuple]:  # noqa: F811
+                return cb.apply_to(SStr([CP]), subj)
+        elif isinstance(f, ast.Attribute) and f.attr == 'translate' and len(core.args) == 1 and not kw and isinstance(f.value, ast.Name) and f.value.id == param:
+            tab = _static_translate_table(m, fn, core.args[0], where)
+            out_t: List[Tuple[R.CharSet, List[tuple]]] = []
+            rest = full
+            for k_, v_ in sorted(tab.items()):
+                cs = R.CharSet([(k_, k_)])
+                rest = rest - cs
+                out_t.append((cs, [('lit', v_)] if v_ else []))
+            out_t.append((rest, [('self',)]))
+            return out_t
+    if evaluate is None:
+        raise AnalysisError(f'{where}: unrecognised string operation `{pf.nsrc(core)[:60]}`')
+    leaves: List[Tuple[R.CharSet, List[tuple]]] = []
+    work = [Store(unit, {'cp': full}, conts)]
+    runs = 0
+    while work:
+        st = work.pop()
+        runs += 1
+        if runs > _LEAF_LIMIT:
+            raise AnalysisError(f'{where}: more than {_LEAF_LIMIT} cases for the per-character encoder')
+        subj = Subject([CP], st, 0)
+        try:
+            out = evaluate(subj)
+        except Split as sp_:
+            if sp_.var != 'cp':
+                raise AnalysisError(f'{where}: what is emitted for a character depends on the characters around it; not a per-character encoder')
+            work += st.refine(sp_.var, sp_.cs)
+            continue
+        except PyRaise as ex:
+            raise AnalysisError(f'{where}: the encoder raises {ex.kind} for {st.vals["cp"].describe()} ({ex.why}); not modelled')
+        parts: List[tuple] = []
+        for a in out:
+            if a[0] == 'c':
+                if parts and parts[-1][0] == 'lit':
+                    parts[-1] = ('lit', parts[-1][1] + a[1])
+                else:
+                    parts.append(('lit', a[1]))
+            elif a == CP:
+                parts.append(('self',))
+            elif a[0] == 'num':
+                parts.append(('hex', a[1], a[2]))
+            else:
+                raise AnalysisError(f'{where}: the encoder emits {show_atom(a)}; not expressible in the unit table')
+        leaves.append((st.vals['cp'], parts))
+    return leaves
 
 
 # ---------------------------------------------------------------------------------------------------------------------
